@@ -17,7 +17,8 @@ NSlots == <<"T1", "T2", "T3", "T4", "TB", "P1", "P2", "PB", "p0", "var", "pkg:b"
 NDefault(s) == IF s = "var" THEN "" ELSE IF s \in {"pkg:b", "alias:b"} THEN "b" ELSE s
 NPool(s) ==
   CASE s \in {"T1", "T2", "T3", "T4"} -> {"Err", "Cleanup", "Cleanup2", "Context", "String", "Error", "Type", "Select", "Func", "Foo", "Foo2",
-                                          "FooBar", "X1", "X1_2", "err", "cleanup", "foo", "Nil", "Bool", "Wire", "B"}
+                                          "FooBar", "X1", "X1_2", "err", "cleanup", "foo", "Nil", "Bool", "Wire", "B",
+                                          "U8ber", "A8rger"}     \* U8 / A8: rendered as the non-ASCII letters u-umlaut / A-umlaut
     [] s = "TB" -> {"Err", "Cleanup", "Foo", "Type", "B", "Context", "Error"}
     [] s \in {"P1", "P2"} -> {"cleanup", "cleanup2", "err", "err2", "foo", "fooBar", "Foo", "context", "x1", "b", "bFoo"}
     [] s = "PB" -> {"Cleanup", "Err", "Foo", "New", "Select"}
